@@ -10,6 +10,10 @@ SeqToSet(sq) == {sq[i] : i \in 1 .. Len(sq)}
 EvChecks(ev) ==
   CASE ev.ev = "call" ->
          CallChecks(ev.args.c, ev.args.v, ev.args.role, ev.args.phase, ev.res, ev.dpre = ev.dpost)
+    \* a direct wasm-level migration of a factory's child by an account (the factory's owner before or after the hand-over,
+    \* anybody else): children are migrated through their factory only
+    [] ev.ev = "adminmigrate" ->
+         << <<"C16.children-are-migrated-only-through-their-factory", ev.res # "ok" /\ ev.dpre = ev.dpost>> >>
     [] ev.ev = "transfer" -> << <<"C16.owner-can-transfer-ownership", ev.res = "ok">> >>
     [] ev.ev = "reset" ->
          \* variant discovery: every privileged-looking variant the schema knows must be in the table
